@@ -13,3 +13,4 @@ CONSTANTS
   InitViaQueue = TRUE
   ClearCache = TRUE
 INVARIANTS TypeOK WireSeqOrdered
+ALIAS BehAlias
